@@ -28,7 +28,11 @@ PARTIAL = [
     "normal matrix has condition number <= 1e5 (otherwise: finiteness only)",
     "Gaussian weights (exp) and the square root inside the 2-D tricube weight are evaluated with Lean Float in the "
     "driver; the theorems about the Gaussian kernel are over the reals",
-    "2-D reproduction of polynomials given in raw coordinates is proved for degree <= 3 only (C06.reproduces_polynomials_2d_partial)",
+    "2-D shift/scale invariance: proved for every compact kernel given a distance function homogeneous on the data "
+    "(C06.shift_scale_invariant_2d) and for arbitrary equal weights (…_weights); that the float Euclidean norm is such a "
+    "function, and the Gaussian weights, are sampled",
+    "the default bandwidth n^(-1/5): the count n per entry point is modelled exactly (bandwidthCount) and compared with "
+    "the bandwidth captured at the smoother (C07 harness); the fifth root itself is float",
 ]
 TRUSTED_EXTRA = ["sklearn.preprocessing.PolynomialFeatures: monomials of total degree <= d, graded order (re-checked by the correspondence on every run)"]
 
@@ -879,6 +883,21 @@ def oracle(case, impl):
         # pointwise: the other query points do not matter
         if not near(impl["single"][j], f, sc, 1e-10):
             bad("pointwise", f"estimate {f!r} in a batch vs {impl['single'][j]!r} alone at {where}", dom)
+    # degree 0 (Nadaraya–Watson) preserves the range of the responses carrying positive weight (C06.degree0_in_range)
+    if case["degree"] == 0:
+        xs = _arr(case, "x", "x2")
+        qs = _arr(case, "q", "q2")
+        ys = np.array(fl(_Fv(case["y"])))
+        hh = float(F(case["h"]))
+        for j, f in enumerate(impl["base"]):
+            Z = (xs - qs[j]) / hh
+            u = np.abs(Z) if Z.ndim == 1 else np.sqrt((Z ** 2).sum(axis=1))
+            inwin = _kernel_np(case["kernel"], u) > 0
+            if inwin.any() and np.isfinite(f) and st[j] != "singular":
+                lo_, hi_ = float(ys[inwin].min()), float(ys[inwin].max())
+                if not (lo_ - 1e-9 * sc <= f <= hi_ + 1e-9 * sc):
+                    bad("range_preserved", f"degree-0 estimate {f!r} outside the range [{lo_!r}, {hi_!r}] of the responses in the window (query {j}, {case['kernel']}, h={case['h']}, n={case['n']})", dom)
+                    break
     # histories with the caller's arrays changed in place; memory layout
     sc2h = max([abs(float(F(t))) for t in case["y2"]] + [1e-300])
     for name, ref, scale, what in (("inpl1", "base", sc, "first call on a fresh object"),
